@@ -520,6 +520,10 @@ pub fn judge_scalar(st: &mut Stats, s: &Scalar4, m: &Model, path: &[SOp]) {
             }
         }
     }
+    // the zero test reads the stored coefficients, flagged or not: a scalar whose four coefficients are all zero is zero
+    if s.is_zero() != rep.is_zero() {
+        st.violation(Violation { sig: format!("scalar|is_zero-disagrees-with-coefficients|flagged={}", flagged), detail: format!("is_zero() = {} for stored coefficients {}", s.is_zero(), rep.key()), witness: w() });
+    }
     let x = &m.exact;
     if !flagged {
         if !rep.eqv(x) {
